@@ -20,6 +20,8 @@ pub struct SymGraph<W = (), Ty = petgraph::Directed, N = ()> {
     pub nw: Vec<N>,
     /// multigraph mode: each present pair may be doubled (second variable `<prefix>m_i_j`); iterators yield it twice
     pub multi: bool,
+    /// sparse mode: only these (canonical) position pairs may be edges; all others are absent without asking the solver
+    pub only: Option<std::collections::HashSet<(usize, usize)>>,
     pub ty: PhantomData<Ty>,
 }
 
@@ -39,6 +41,7 @@ impl<Ty: EdgeType> SymGraph<(), Ty> {
             weights: vec![(); n * n],
             nw: vec![(); n],
             multi: false,
+            only: None,
             ty: PhantomData,
         };
         for i in 0..n {
@@ -51,6 +54,28 @@ impl<Ty: EdgeType> SymGraph<(), Ty> {
                     assume(&format!("(not {})", g.var(i, j)));
                 }
             }
+        }
+        g
+    }
+}
+
+impl<Ty: EdgeType> SymGraph<(), Ty> {
+    /// Sparse graph: only `free` (canonical position pairs) are declared as adjacency variables; every other pair is absent.
+    pub fn sparse(prefix: &str, n: usize, free: &[(usize, usize)]) -> SymGraph<(), Ty> {
+        let directed = Ty::is_directed();
+        let g = SymGraph {
+            bound: n,
+            ids: (0..n).collect(),
+            directed,
+            prefix: prefix.to_string(),
+            weights: vec![(); 0],
+            nw: vec![(); n],
+            multi: false,
+            only: Some(free.iter().cloned().collect()),
+            ty: PhantomData,
+        };
+        for &(i, j) in free {
+            declare(&g.var(i, j), "Bool");
         }
         g
     }
@@ -105,6 +130,12 @@ impl<W, Ty, N> SymGraph<W, Ty, N> {
         }
     }
     pub fn has_pos(&self, i: usize, j: usize) -> bool {
+        if let Some(o) = &self.only {
+            let c = if !self.directed && j < i { (j, i) } else { (i, j) };
+            if !o.contains(&c) {
+                return false;
+            }
+        }
         decide(&self.var(i, j))
     }
     pub fn has(&self, a: usize, b: usize) -> bool {
@@ -119,11 +150,11 @@ impl<W, Ty, N> SymGraph<W, Ty, N> {
         N: Clone,
     {
         assert_eq!(weights.len(), self.n() * self.n());
-        SymGraph { ids: self.ids.clone(), directed: self.directed, bound: self.bound, prefix: self.prefix.clone(), weights, nw: self.nw.clone(), multi: self.multi, ty: PhantomData }
+        SymGraph { ids: self.ids.clone(), directed: self.directed, bound: self.bound, prefix: self.prefix.clone(), weights, nw: self.nw.clone(), multi: self.multi, only: self.only.clone(), ty: PhantomData }
     }
     pub fn with_node_weights<N2>(self, nw: Vec<N2>) -> SymGraph<W, Ty, N2> {
         assert_eq!(nw.len(), self.n());
-        SymGraph { ids: self.ids, directed: self.directed, bound: self.bound, prefix: self.prefix, weights: self.weights, nw, multi: self.multi, ty: PhantomData }
+        SymGraph { ids: self.ids, directed: self.directed, bound: self.bound, prefix: self.prefix, weights: self.weights, nw, multi: self.multi, only: self.only, ty: PhantomData }
     }
     fn wref(&self, i: usize, j: usize) -> &W {
         let (i, j) = if !self.directed && j < i { (j, i) } else { (i, j) };
